@@ -8,6 +8,7 @@ import (
 	"fmt"
 	"os"
 	"path/filepath"
+	"runtime/debug"
 	"sort"
 	"strconv"
 	"strings"
@@ -378,6 +379,47 @@ func Replaying() (ReplayFile, bool) {
 	return rf, true
 }
 
+// safeRun executes run(c); a panic raised inside library code (a tss-lib frame is reached before any
+// harness frame when walking down from the panic) becomes a violating outcome; a panic raised by the
+// harness itself is re-raised (infrastructure error, never a violation).
+func safeRun[C any](run func(C) Outcome, c C) (out Outcome) {
+	defer func() {
+		if p := recover(); p != nil {
+			frame, lib := classifyPanic(string(debug.Stack()))
+			if !lib {
+				panic(p)
+			}
+			out = Outcome{Label: "panic in library code", Nontrivial: true,
+				Err: fmt.Errorf("panic in library code: %v (at %s)", p, frame), Sig: "panic:" + frame}
+		}
+	}()
+	return run(c)
+}
+
+func classifyPanic(stack string) (frame string, lib bool) {
+	lines := strings.Split(stack, "\n")
+	started := false
+	for _, l := range lines {
+		if strings.HasPrefix(l, "panic(") {
+			started = true
+			continue
+		}
+		if !started || strings.HasPrefix(l, "\t") || l == "" {
+			continue
+		}
+		if strings.Contains(l, "verif/harness") {
+			return l, false
+		}
+		if strings.Contains(l, "bnb-chain/tss-lib") {
+			if i := strings.LastIndex(l, "("); i > 0 {
+				l = l[:i]
+			}
+			return l, true
+		}
+	}
+	return "", false
+}
+
 // Drive runs `run` over rapid-generated cases (or over the replayed case).
 func Drive[C any](t *testing.T, r *Recorder, gen func(*rapid.T) C, run func(C) Outcome) {
 	test := t.Name()
@@ -390,7 +432,7 @@ func Drive[C any](t *testing.T, r *Recorder, gen func(*rapid.T) C, run func(C) O
 			t.Fatalf("cannot decode replay case: %v", err)
 		}
 		for i := 0; i < replayTimes(); i++ {
-			out := run(c)
+			out := safeRun(run, c)
 			if msg := r.handle(test, c, out); msg != "" {
 				fmt.Println(msg)
 				t.Fatal(msg)
@@ -401,7 +443,7 @@ func Drive[C any](t *testing.T, r *Recorder, gen func(*rapid.T) C, run func(C) O
 	rapid.Check(t, func(rt *rapid.T) {
 		c := gen(rt)
 		r.Journal(test, c)
-		out := run(c)
+		out := safeRun(run, c)
 		if msg := r.handle(test, c, out); msg != "" {
 			rt.Fatalf("%s", msg)
 		}
@@ -421,7 +463,7 @@ func Each[C any](t *testing.T, r *Recorder, cases []C, run func(C) Outcome) {
 			t.Fatalf("cannot decode replay case: %v", err)
 		}
 		for i := 0; i < replayTimes(); i++ {
-			out := run(c)
+			out := safeRun(run, c)
 			if msg := r.handle(test, c, out); msg != "" {
 				fmt.Println(msg)
 				t.Fatal(msg)
@@ -432,7 +474,7 @@ func Each[C any](t *testing.T, r *Recorder, cases []C, run func(C) Outcome) {
 	failed := 0
 	for _, c := range cases {
 		r.Journal(test, c)
-		out := run(c)
+		out := safeRun(run, c)
 		if msg := r.handle(test, c, out); msg != "" {
 			fmt.Println(msg)
 			failed++
